@@ -18,6 +18,14 @@ def main(path):
     r = json.load(open(path))
     print(json.dumps({k: r[k] for k in r if k not in ("code_excerpt",)}, indent=1, default=str)[:3000])
     q, backend = r.get("query") or r.get("variant"), r.get("backend")
+    if r.get("symptom") == "job-configuration":
+        from mc.core.translate import translate
+        from mc.lang.jobcfg import run_config
+        pkg = translate(q, backend)
+        out = run_config(pkg.files, backend, r["event_counts"])
+        print("job configuration re-run:", out)
+        o = out["output"]
+        return 0 if out["rc"] == 0 and o is not None and o["processed"] == sum(r["event_counts"]) and o["inputs"] == out["inputs_expected"] and len(out["produced"]) == 1 else 1
     if not q or backend not in qgen.ALPHA:
         print("(no single query to re-run: see the payload above)")
         return 0
